@@ -67,15 +67,18 @@ pub fn oracle(case: &MpcCase, r: &RunResult<Vec<bool>>) -> Result<(), String> {
 }
 
 pub fn explore_config(case: &MpcCase, cap: Option<usize>, bound: u32, seed: u64, budget: &Budget) -> ConfigResult {
+    explore_config_with(case, cap, bound, seed, budget, &|r| oracle(case, r))
+}
+
+pub fn explore_config_with(case: &MpcCase, cap: Option<usize>, bound: u32, seed: u64, budget: &Budget, check: &(dyn Fn(&RunResult<Vec<bool>>) -> Result<(), String> + Sync)) -> ConfigResult {
     let cfg = ExecCfg::new(case.n(), seed).cap(cap);
-    let check = |r: &RunResult<Vec<bool>>| oracle(case, r);
     let ex = Explorer {
         cfg,
         body: mpc_body(case, 700),
         bound,
         visited: Default::default(),
         stats: Stats::default(),
-        check: &check,
+        check,
         failures: Default::default(),
         final_hists: Default::default(),
         budget,
